@@ -271,6 +271,20 @@ def lock_contention(tok):
     a = SerializableLock(tok)
     copies = {"pickle round trip": pickle.loads(pickle.dumps(a)), "copy.copy": copy.copy(a), "copy.deepcopy": copy.deepcopy(a),
               "second round trip": pickle.loads(pickle.dumps(pickle.loads(pickle.dumps(a))))}
+    # copies that come into being in OTHER threads of the same process (the statement says "in the same process")
+    blob = pickle.dumps(a)
+    made = {}
+
+    def maker(name):
+        made[name] = pickle.loads(blob) if name != "same token, created in another thread" else SerializableLock(a.token)
+
+    for name in ("unpickled in another thread", "unpickled in a second thread", "same token, created in another thread"):
+        t_ = threading.Thread(target=maker, args=(name,), daemon=True)
+        t_.start()
+        t_.join(5)
+    copies.update(made)
+    if len(made) == 3 and made["unpickled in another thread"].lock is not made["unpickled in a second thread"].lock:
+        return f"token {tok!r}: two copies unpickled by two different threads do not share one lock"
     other = SerializableLock()
     held, done = threading.Event(), threading.Event()
 
@@ -310,9 +324,42 @@ def lock_contention(tok):
     return msg
 
 
+def lock_generated_tokens():
+    """Locks created separately (no token given) never exclude each other, whatever the state of the global random
+    module at the time of creation (a program that seeds `random` before each of them included)."""
+    import random
+
+    from dask.utils import SerializableLock
+
+    st = random.getstate()
+    try:
+        locks = []
+        for _ in range(3):
+            random.seed(1234)
+            locks.append(SerializableLock())
+        random.setstate(st)
+        locks.append(SerializableLock())
+        random.setstate(st)
+        locks.append(SerializableLock())
+    finally:
+        random.setstate(st)
+    for x, y in itertools.combinations(locks, 2):
+        if x.lock is y.lock or x.token == y.token:
+            return "two locks created separately (no token given; global random module re-seeded in between) share one lock"
+        with x:
+            if not y.acquire(timeout=1):
+                return "a separately created lock cannot be acquired while another one is held"
+            y.release()
+    return None
+
+
 def lock_sweep(tier, seed=0):
     t0 = time.time()
     cases, fails = 0, []
+    cases += 1
+    msg = lock_generated_tokens()
+    if msg:
+        fails.append(rtc.Failure("SerializableLock", {"scenario": "generated tokens with the global random module re-seeded"}, "ensures", "C53-copies-share-the-lock-separate-locks-do-not", msg))
     for tok in TOKENS:
         cases += 1
         try:
@@ -335,6 +382,6 @@ def lock_sweep(tier, seed=0):
                 break
     gc.collect()
     return {"function": "dask/utils.py:SerializableLock (real code)", "bounded": True,
-            "bound": {"history length": length, "contention": "per token: a thread holds the original, 4 kinds of copies x 4 ways of acquiring", "ops": "new(token in None/'tok'/1/'1'/('a',1)/\"('a', 1)\"/b'x'/\"b'x'\"/''/0), pickle round trip of instance i, delete instance i + gc"},
+            "bound": {"history length": length, "contention": "per token: a thread holds the original, 7 kinds of copies (3 of them made in other threads) x 4 ways of acquiring; generated tokens with the global random module re-seeded", "ops": "new(token in None/'tok'/1/'1'/('a',1)/\"('a', 1)\"/b'x'/\"b'x'\"/''/0), pickle round trip of instance i, delete instance i + gc"},
             "cases": cases, "distinct_nontrivial": cases, "failures_found": len(fails), "wall_s": round(time.time() - t0, 2),
             "samples": [{"native_case": {"history": [["new", "tok"], ["pickle", 0], ["del", 0], ["pickle", 1]]}}], "failures": fails[:4]}
